@@ -602,7 +602,14 @@ def op_subs_real(rng, cur, obs, spec, chosen=None, all_variants=False):
         variants.append(("chained", [lazy_k] + oth,
                          lambda oth=oth: cur(**{lazy_k: uvar * uvar})(**dict([(k, kwargs[k]) for k in oth]
                                                                             + [(uname, root)]))))
-    steps = [dict(run=run, spec=fn, model=model_for(order), exact=True, rank=obs.rank,
+    # The chained variant grounds the inputs in several eager_subs calls: an intermediate Gaussian over fewer real
+    # inputs is re-constructed, and GaussianMeta compresses it with a QR (inexact) as soon as rank > 2 * its dim.
+    # It is exact only if no possible intermediate (the free inputs plus at least one substituted input) can
+    # trigger that; otherwise the step is compared at rtol 1e-9 like every other QR path.
+    dim_min = sum(numel(sh) for sh in rest.values()) + min(numel(spec.reals[k]) for k in chosen)
+    chained_exact = obs.rank <= 2 * dim_min
+    steps = [dict(run=run, spec=fn, model=model_for(order), exact=(chained_exact if label == "chained" else True),
+                  rank=obs.rank,
                   desc=dict(op="subs_real", variant=label, pair_order=order, lazy_first=lazy_k, values=descs))
              for label, order, run in variants]
     step = dict(rng.choice(steps))
@@ -1392,7 +1399,7 @@ def subs_order_case(env, case_seed, tier, counts):
             continue
         rdim = sum(numel(sh) for sh in v["spec"].reals.values())
         try:
-            check_step(env, rng, res, v, exact and not (rdim and v["rank"] > 2 * rdim), counts)
+            check_step(env, rng, res, v, exact and v["exact"] and not (rdim and v["rank"] > 2 * rdim), counts)
         except Declined as e:
             counts(f"subs-order:{label}:declined:{e}")
             continue
@@ -1570,7 +1577,7 @@ def correspond(ctx, use_driver=True, volume=None):
                 "chained through a lazy first step.  Non-trivial = at least one operation checked after construction; "
                 "distinct by seed and operation sequence.")
     env = Env(ctx, use_driver)
-    n = volume or (700 if ctx.tier == "quick" else 14000)
+    n = volume or (700 if ctx.tier == "quick" else 12000)
     if env.use_driver:
         offsets_stream(ctx, 60 if ctx.tier == "quick" else 600)
     for _ in range(n):
@@ -1583,7 +1590,7 @@ def correspond(ctx, use_driver=True, volume=None):
         if nsteps:
             ctx.case(sample=sample, nontrivial_key=key)
             ctx.count(f"chain-length:{nsteps}")
-    for _ in range(60 if ctx.tier == "quick" else 1200):
+    for _ in range(60 if ctx.tier == "quick" else 800):
         seed = ctx.rng.getrandbits(48)
         try:
             nsteps, key, sample = run_case(env, seed, ctx.tier, ctx.count, stream="subs-order")
@@ -1593,7 +1600,7 @@ def correspond(ctx, use_driver=True, volume=None):
         if nsteps:
             ctx.case(sample=sample, nontrivial_key=key)
     history_stream(ctx, env, 40 if ctx.tier == "quick" else 800)
-    for _ in range(40 if ctx.tier == "quick" else 800):
+    for _ in range(40 if ctx.tier == "quick" else 500):
         seed = ctx.rng.getrandbits(48)
         try:
             nsteps, key, sample = run_case(env, seed, ctx.tier, ctx.count, stream="affine-reuse")
